@@ -81,11 +81,18 @@ def postObs (st : St) (s : Seg) (c : Cmd) : String :=
     let rep := it.repKind
     let live := it.live
     let it := match c.get? "replace" with
-      | some rs => if rep == "bm" then it.replaceActual (if rs == "*" then live else parseNatList "," rs) else it
+      | some rs =>
+        if rep == "bm" then
+          let sub := if rs == "*" then live else
+            let mask := ((rs.drop 4).toString.toNat?).getD 0
+            ((live.zipIdx).filter (fun (p : Nat × Nat) => (mask >>> (p.2 % 16)) % 2 == 1)).map (fun (p : Nat × Nat) => p.1)
+          it.replaceActual sub
+        else it
       | none => it
     let hits := it.run (parseOps (c.getD "ops" "-"))
     let hs := if hits.isEmpty then "-" else ",".intercalate (hits.map hitStr)
     let _ := st
+    let rep := if live.isEmpty then "none" else rep
     s!"cnt={pl.count} rep={rep} live={natList "," live} hits={hs}"
 
 def dictObs (st : St) (s : Seg) (c : Cmd) : String :=
@@ -285,8 +292,14 @@ def commandObs (st : St) (c : Cmd) : St × Verdict :=
       (st', .pred (fun g => g.startsWith "err:closed file=0" ∨ g.startsWith okStr) ("err:closed file=0 or " ++ okStr))
     else match c.get? "fsize" with
       | some lim =>
-        if lim.toNat?.getD 0 < c.nat "full" 0 then (st, .pred (fun g => g.startsWith "err:io file=0") "err:io file=0")
-        else (st', .pred (fun g => g.startsWith okStr) okStr)
+        -- the size of a merge output varies by a few bytes from run to run (sections are written in Go map
+        -- order, which changes varint widths of offsets), so the fault-free size `full` is only approximate:
+        -- clearly below => must fail; clearly above => must succeed; in between either, but always consistent
+        let limit := lim.toNat?.getD 0
+        let full := c.nat "full" 0
+        if limit + 16 < full then (st, .pred (fun g => g.startsWith "err:io file=0") "err:io file=0")
+        else if limit ≥ full + 16 then (st', .pred (fun g => g.startsWith okStr) okStr)
+        else (st', .pred (fun g => g.startsWith "err:io file=0" ∨ g.startsWith okStr) ("err:io file=0 or " ++ okStr))
       | none => (st', .pred (fun g => g.startsWith okStr) okStr)
   | "q" => queryObs st c
   | "enc" => (st, Codec.encVerdict c |> fun v => match v with
